@@ -227,7 +227,7 @@ def execute(scn, guide=None, keep=False, observer=None):
                     if lost["fired"]:
                         state["stopped_after_loss"] = True
             elif op[0] == "settle":
-                k.sleep(settle_time())
+                common.quiesce(k, env)
                 k.ev("settled")
             elif op[0] == "write":
                 i = op[1]
